@@ -548,33 +548,29 @@ int32_t jls_wr_fsr_data(struct jls_core_fsr_s * self, int64_t sample_id, const v
         if (sample_size_bits >= 8) {
             data = data_u8 + ffwd * (sample_size_bits / 8);
         } else {
-            uint32_t shift = 0;
-            uint32_t shift_samples = 0;
-            if (sample_size_bits == 4) {
-                shift = (ffwd & 1) ? 4 : 0;
-                shift_samples = 1;
-            } else if (sample_size_bits == 1) {
-                shift = ffwd % sample_size_bits;
-                shift_samples = shift;
-            }
+            // skip the samples that are already stored: whole bytes, then the remaining bits
+            uint64_t bit_offset = ((uint64_t) ffwd) * sample_size_bits;
+            uint32_t shift = (uint32_t) (bit_offset % 8);
+            data_u8 += bit_offset / 8;
             if (shift == 0) {
-                data = data_u8 + ffwd * (sample_size_bits / 8);
+                data = data_u8;
             } else {
-                while (data_u8 < data_end_u8) {
-                    size_t sz = data_end_u8 - data_u8;
-                    if (sz > (sizeof(self->buffer_u64) - 8)) {
-                        sz = sizeof(self->buffer_u64) - 8;
+                // realign the remaining samples to a byte boundary, one buffer at a time
+                uint8_t * buf_u8 = (uint8_t *) self->buffer_u64;
+                const uint32_t samples_max = (uint32_t) ((sizeof(self->buffer_u64) * 8) / sample_size_bits);
+                while (data_length) {
+                    uint32_t entries = (data_length < samples_max) ? data_length : samples_max;
+                    size_t sz = (((size_t) entries) * sample_size_bits + 7) / 8;
+                    for (size_t idx = 0; idx < sz; ++idx) {
+                        uint8_t v = data_u8[idx] >> shift;
+                        if ((data_u8 + idx + 1) < data_end_u8) {
+                            v |= (uint8_t) (data_u8[idx + 1] << (8 - shift));
+                        }
+                        buf_u8[idx] = v;
                     }
-                    memcpy(self->buffer_u64, data_u8, sz);
-                    self->buffer_u64[(sz / 8) + 1] = 0;
-                    size_t sz_words = (sz + 7) / 8;
-                    for (uint64_t idx = 0; idx < sz_words; ++idx) {
-                        self->buffer_u64[idx] = (self->buffer_u64[idx] >> shift)
-                                | (self->buffer_u64[idx + 1] << (64 - shift));
-                    }
-                    size_t entries = sz * (8 / sample_size_bits) - shift_samples;
-                    ROE(wr_data_inner(self, self->buffer_u64, (uint32_t) entries));
-                    data_u8 += sz - 1;
+                    ROE(wr_data_inner(self, buf_u8, entries));
+                    data_u8 += (((size_t) entries) * sample_size_bits) / 8;  // whole bytes unless this was the last part
+                    data_length -= entries;
                 }
                 return 0;
             }
